@@ -452,6 +452,37 @@ def check_definedness(unit, ctx, res, rng):
             res['violations'].append(_write_replay(unit, env, fails, 'definedness: a divisor vanishes inside the stated domain'))
             return
         res['definedness_benign'] = res.get('definedness_benign', 0) + 1
+    # arguments of log / sqrt / real powers taken by the code must be positive on the domain
+    seen = set()
+    for d in list(ctx.positives.values()):
+        if ctx.positive_kind.get(d.id) != 'code' or d.id in seen:
+            continue
+        seen.add(d.id)
+        res['definedness_queries'] = res.get('definedness_queries', 0) + 1
+        smt = Smt(nf)
+        base = ctx._base_asserts(smt, divisors=False)
+        for sd in spec:
+            sn, _ = nf.of(sd)
+            if sn.op != 'const':
+                base.append('(not (= %s 0))' % smt.term(sn))
+        ax = atom_axioms(smt)
+        script = smt.script(base + ax + [smt.boolean(d <= 0)])
+        r, model, dt = E.z3_check(script, min(ctx.timeout_ms, 20000), want_model=True)
+        res['queries'] += 1
+        res['solver_s'] += dt
+        if r == 'unsat':
+            res['definedness_discharged'] = res.get('definedness_discharged', 0) + 1
+            continue
+        if r != 'sat':
+            res['definedness_unknown'] = res.get('definedness_unknown', 0) + 1
+            continue
+        env = _model_assignment(ctx, smt, model, rng)
+        fctx, st = run_float(unit, env)
+        fails = [] if fctx is None else [f for f in fctx.float_failures if _nonfinite_failure(f)]
+        if fails:
+            res['violations'].append(_write_replay(unit, env, fails, 'definedness: log/sqrt/real power of a non-positive value inside the stated domain'))
+            return
+        res['definedness_benign'] = res.get('definedness_benign', 0) + 1
 
 
 def _nonfinite_failure(f):
